@@ -79,67 +79,36 @@ def run(tier, seed, mutant=None, only_validate=False):
     try:
         if not only_validate:
             for sync in (False, True):
-                r, rec = amod.mc(res, work, "AsyncLatest", "sync%d" % sync, dict(NE=ne, SyncCons=sync, Legacy=False),
+                # the ideal design (cb owns the reference while it emits): everything holds
+                r, rec = amod.mc(res, work, "AsyncLatest", "ideal_sync%d" % sync,
+                                 dict(NE=ne, SyncCons=sync, Legacy=False, CbOwns=True),
                                  INVS, ["NoResurrection", "NewestEventually"], spec="FairSpec")
-                if not r.ok:
-                    res.violations.append(dict(property=INV_PROP.get(r.violated or "", "C14"), engine="alatest",
-                                               clause=r.violated or "tlc-error",
-                                               what="AsyncLatest.tla violates %s" % r.violated,
-                                               signature=dict(kind="spec", clause=r.violated or "error", node="latest")))
-            # sensitivity: the pre-fix algorithm must be refuted by the same properties (guards against vacuity)
-            for inv in ("Subsequence", "NewestDelivered", "CbSafe"):
-                r, rec = amod.mc(res, work, "AsyncLatest", "legacy_" + inv, dict(NE=3, SyncCons=False, Legacy=True), [inv])
+                amod.spec_violation(res, r, rec, INV_PROP, "C14", "latest")
+                # the tree (slot keeps the reference): everything but CbSafe
+                r, rec = amod.mc(res, work, "AsyncLatest", "tree_sync%d" % sync,
+                                 dict(NE=ne, SyncCons=sync, Legacy=False, CbOwns=False),
+                                 [i for i in INVS if i != "CbSafe"], ["NoResurrection", "NewestEventually"], spec="FairSpec")
+                amod.spec_violation(res, r, rec, INV_PROP, "C14", "latest")
+            # sensitivity: the pre-fix algorithm must be refuted by the same properties (guards against vacuity),
+            # and the tree's reference handling must be refuted by CbSafe (re-demonstrates known finding F06-latest)
+            for name, consts, inv in (("legacy_Subsequence", dict(NE=3, SyncCons=False, Legacy=True, CbOwns=False), "Subsequence"),
+                                      ("legacy_NewestDelivered", dict(NE=3, SyncCons=False, Legacy=True, CbOwns=False), "NewestDelivered"),
+                                      ("tree_CbSafe", dict(NE=3, SyncCons=False, Legacy=False, CbOwns=False), "CbSafe")):
+                r, rec = amod.mc(res, work, "AsyncLatest", name, consts, [inv])
                 rec["expected_violation"] = inv
                 rec["ok"] = (r.violated == inv)
                 if r.violated != inv:
-                    raise core.MachineryError("sensitivity run: legacy latest algorithm not refuted by " + inv)
+                    raise core.MachineryError("sensitivity run %s: expected counter-example to %s not found" % (name, inv))
         cfgs = [{"kind": "latest", "cons": [c], "max_elems": ne} for c in ("future", "coro", "sync")]
-        runs = amod.drive(work, cfgs, seed, depth=8 if tier == "quick" else 10, limit=400 if tier == "quick" else 4000,
-                          nrandom=200 if tier == "quick" else 2000, mutant=mutant)
-        groups, traces = {}, {}
-        for i, r in enumerate(runs, start=1):
-            t = adapt(r)
-            groups.setdefault(r["cfg"]["cons"][0], (r["cfg"], []))[1].append({"id": i, "ev": t})
-            traces[i] = (r, t)
-        glist = [("latest " + c["cons"][0], dict(NE=ne, SyncCons=c["cons"][0] == "sync", Legacy=False), ts)
-                 for c, ts in groups.values()]
-        reached, problems = amod.validate_groups(work, "AsyncLatestTrace", glist)
-        res.traces = len(runs)
-        res.evaluations = sum(len(t[1]) for t in traces.values())
-        for name, kind, detail in problems:
-            if kind == "error":
-                raise core.MachineryError("AsyncLatestTrace failed on %s: %s" % (name, detail[:600]))
-            inv = kind.split()[-1]
-            res.violations.append(dict(property="C14", engine="alatest", clause=inv,
-                                       what="a recorded run of the real latest node violates %s (%s)" % (inv, name),
-                                       detail=detail, signature=dict(kind="trace-invariant", clause=inv, node="latest")))
-        nontriv = set()
-        for i, (r, t) in traces.items():
-            got = reached.get(i)
-            if got is None:
-                continue
-            if got[0] >= got[1]:
-                res.accepted += 1
-                ndel = sum(1 for x in t if x["ev"] == "CbEmit")
-                narr = sum(1 for x in t if x["ev"] == "Arrive")
-                if 0 < ndel < narr:
-                    nontriv.add(" ".join(r["schedule"]) + r["cfg"]["cons"][0])
-            else:
-                prop, why = attribute(r, t, got[0])
-                evt = t[got[0] - 1] if got[0] <= len(t) else {"ev": "end"}
-                res.violations.append(dict(
-                    property=prop, engine="alatest", clause=evt["ev"],
-                    what="latest() consumer=%s schedule '%s': event #%d %s -- %s" % (
-                        r["cfg"]["cons"][0], " ".join(r["schedule"]), got[0], evt, why),
-                    signature=dict(kind="trace", node="latest", event=evt["ev"]),
-                    replay=dict(engine="alatest", cfg=r["cfg"], schedule=r["schedule"], at=got[0], trace=t[:got[0] + 2])))
-        res.nontrivial = len(nontriv)
+        amod.node_engine(res, work, node="latest", trace_module="AsyncLatestTrace", cfgs=cfgs,
+                         consts_of=lambda c: dict(NE=ne, SyncCons=c["cons"][0] == "sync", Legacy=False, CbOwns=False),
+                         adapt=adapt, attribute=attribute, seed=seed, depth=8 if tier == "quick" else 10,
+                         limit=400 if tier == "quick" else 4000, nrandom=200 if tier == "quick" else 2000,
+                         default_prop="C14", mutant=mutant,
+                         nontrivial=lambda r, t: 0 < sum(1 for x in t if x["ev"] == "CbEmit") < sum(1 for x in t if x["ev"] == "Arrive"))
         res.rule = ("alatest: latest() x consumer style x all schedules of depth <= 8/10 over {arrive, finish consumer, run one "
                     "loop iteration} + random longer ones, each followed by a drain; non-trivial = at least one element was "
                     "overwritten before delivery; distinct by (consumer style, schedule)")
-        for r in runs[:2]:
-            res.samples.append(dict(cfg=r["cfg"], schedule=" ".join(r["schedule"]),
-                                    delivered=[e["x"] for e in r["ev"] if e["ev"] == "deliver"]))
     finally:
         shutil.rmtree(work, ignore_errors=True)
     return res
@@ -147,4 +116,5 @@ def run(tier, seed, mutant=None, only_validate=False):
 
 def canaries(tier, seed):
     r = run("quick", seed, mutant="latest_no_notify", only_validate=True)
-    return [dict(name="mutant:latest_no_notify", detected=bool(r.violations), rejected=len(r.violations))]
+    n = [v for v in r.violations if v["signature"].get("kind") != "premature-callback"]
+    return [dict(name="mutant:latest_no_notify", detected=bool(n), rejected=len(n))]
